@@ -443,7 +443,7 @@ def c10_units(th):
          U(["Bq"], query=True, h=H(items=("1", "'a;b'", "#13x,y"))),
          U(["GRP"], query=True, h=H(hdr="GRP:Y", items=("42",))),
          U(["*OPC"], query=True, h=H(items=("-2.5", '"Unexpected ""x"""'))),   # a long segment before an embedded quote, short ones after it
-         U(["GRP", "X"], query=True, h=H(hdr="LONGHEADERXX:X", items=("ON",))),   # two header() calls: a long first level, a short rest (fits where the first does not)
+         U(["GRP", "X"], query=True, h=H(hdr="LONGHEADERXX:X", items=("ON", "OFF"))),   # two header() calls: a long first level, a short rest (fits where the first does not)
          U(["Bq"], query=True, h=H(items=("", "#12x;"))),       # an empty first datum (still separated by ','); payload ending in the unit separator byte
          U(["GRP"], query=True, h=H(items=("#11,", "#11\n"))),   # ... in the data separator / terminator byte
          U(["SENS"], query=True, h=H(items=('-171,"Invalid expression;ext ""one"""', '0,"No error"'))),   # error/event queue items
